@@ -1,4 +1,4 @@
-// Command dev-c20 runs the C20 check on its own: dev-c20 C20 <quick|thorough>.
+// Command dev-c19 runs only the C19 check: dev-c19 C19 <quick|thorough>.
 package main
 
 import (
@@ -6,7 +6,7 @@ import (
 	"os"
 	"runtime/pprof"
 
-	"verif/harness/checks/c20"
+	_ "verif/harness/checks/c19"
 	"verif/harness/lib"
 )
 
@@ -15,17 +15,8 @@ func main() {
 		lib.ServeMain(os.Args[2:])
 		return
 	}
-	if len(os.Args) == 3 && os.Args[1] == "gen-goldens" {
-		// One-off helper: write the golden files with the build linked in.
-		lib.QuietGlobalLog()
-		if err := c20.GenGoldens(os.Args[2]); err != nil {
-			fmt.Fprintln(os.Stderr, "gen-goldens:", err)
-			os.Exit(1)
-		}
-		return
-	}
 	if len(os.Args) < 3 {
-		fmt.Fprintf(os.Stderr, "usage: check <ID> <quick|thorough>; registered: %v\n", lib.Registered())
+		fmt.Fprintf(os.Stderr, "usage: dev-c19 <ID> <quick|thorough>; registered: %v\n", lib.Registered())
 		os.Exit(64)
 	}
 	id, tier := os.Args[1], os.Args[2]
